@@ -119,6 +119,31 @@ def control_step(st: int, remembered_local: bool, communicating: bool, event: in
     return fin(sent == [c for c in want_ces if enabled[c]])
 
 
+def host_request_during_probe(remembered_local: bool, which: int, system: int, probe: int) -> bool:
+    """
+    pre: 0 <= which <= 1 and 0 <= probe <= 2 and 0 <= system < 2**32
+    post: _
+    """
+    # the operator switched online: the S1F1 probe is outstanding (ATTEMPT ONLINE) when a host request arrives - it is handled
+    # before the probe's reply is seen. S1F17 is not allowed there (ONLACK 1), S1F15 is acknowledged with 0; neither moves the state
+    h, p = _equipment(EQ_OFF, remembered_local, True, False, False, False, probe)
+    seen = []
+
+    def reply(fn, sysb):
+        if which == 0:
+            seen.append((h._on_s01f17(h, rig.msg(F.SecsS01F17(), system)).get(), h._get_control_state_id()))
+        else:
+            seen.append((h._on_s01f15(h, rig.msg(F.SecsS01F15(), system)).get(), h._get_control_state_id()))
+        return None if probe == 2 else rig.Msg(1, 2 if probe == 0 else 0, False, sysb, None)
+    p.reply = reply
+    h.control_switch_online()
+    if len(seen) != 1:
+        return False
+    ack, during = seen[0]
+    want_final = (LOCAL if remembered_local else REMOTE) if probe == 0 else HOST_OFF
+    return fin(during == ATTEMPT and ack == (1 if which == 0 else 0) and h._get_control_state_id() == want_final)
+
+
 def initial_state(cfg: int, local: bool) -> bool:
     """
     pre: 0 <= cfg <= 3
@@ -145,6 +170,9 @@ OBLIGATIONS = [
                 "control-state events: finite control space fully explored; one step from every state covers every history",
          outside="link loss (on_connection_closed) during a control transition",
          findings=[dict(id="C11-host-offline-operator-offline", pred="event == 1 and st == 1")]),
+    dict(name="host_request_during_probe", fn="host_request_during_probe", timeout=120,
+         functions=["_on_s01f17/_on_s01f15 while _on_control_state_attempt_online waits for the S1F1 reply"],
+         bounds="S1F17 / S1F15 (all system bytes) arriving in ATTEMPT ONLINE, probe then answered S1F2 / other / not at all"),
     dict(name="initial_state", fn="initial_state", timeout=120, functions=["GemEquipmentHandler.__init__", "ControlStateMachine.start"],
          bounds="all 4 x 2 initial configurations"),
 ]
